@@ -419,9 +419,16 @@ func (h *harness) doTruncate() bool {
 		if k != -1 && (k < lo || k > hi) {
 			k = lo + h.rng.Int64N(hi-lo+1)
 		}
+		if lo > 0 && h.rng.IntN(12) == 0 {
+			// below the first entry of the log (a follower whose log starts after a snapshot is asked to go back further)
+			k = h.rng.Int64N(lo)
+		}
 	}
 	kind := "truncate"
-	if k == -1 {
+	belowFirst := !m.empty() && k != -1 && k < m.first
+	if belowFirst {
+		kind = "truncate-below-first"
+	} else if k == -1 {
 		kind = "truncate-all"
 	} else if len(bases) > 0 && k < bases[len(bases)-1] {
 		kind = "truncate-cross-segment"
@@ -431,14 +438,43 @@ func (h *harness) doTruncate() bool {
 	if !m.empty() && m.synced != m.lastAppended() {
 		kind += "+unsynced-tail"
 	}
-	got, err := h.w.TruncateLog(k)
+	type tres struct {
+		got int64
+		err error
+	}
+	tch := make(chan tres, 1)
+	go func() {
+		g, e := h.w.TruncateLog(k)
+		tch <- tres{g, e}
+	}()
+	var got int64
+	var err error
+	select {
+	case tr := <-tch:
+		got, err = tr.got, tr.err
+	case <-time.After(20 * time.Second):
+		h.ops = append(h.ops, opRec{Op: kind, Arg: k, Res: "never returned"})
+		h.lastMutSet(kind)
+		// logical evidence of a deadlock rather than slowness: the WAL's own lock cannot be taken any more
+		probe := make(chan struct{})
+		go func() { _ = h.w.FirstOffset(); _, _ = h.w.NewReader(-1); _ = h.w.AppendAsync(&proto.LogEntry{Offset: -5}); close(probe) }()
+		select {
+		case <-probe:
+			h.r.Inconclusive("TruncateLog did not return within 20s")
+		case <-time.After(5 * time.Second):
+			h.viol("truncate-never-returns", fmt.Sprintf("TruncateLog(%d) did not return and the WAL no longer answers any call (its lock is held)", k))
+		}
+		h.r.RestartChild()
+		h.w = nil
+		return false
+	}
 	h.ops = append(h.ops, opRec{Op: kind, Arg: k, Res: fmt.Sprintf("%d,%v", got, err)})
 	h.lastMutSet(kind)
 	if err != nil {
 		h.viol("truncate-error", fmt.Sprintf("TruncateLog(%d): %s", k, errClass(err)))
 		return false
 	}
-	if m.empty() || k == -1 {
+	if m.empty() || k == -1 || belowFirst {
 		if got != -1 {
 			h.viol("truncate-result", fmt.Sprintf("TruncateLog(%d) on empty/all returned %d", k, got))
 			return false
